@@ -132,3 +132,155 @@ def location_lists_round_trip_old_versions(n: int, k0: int, k1: int, k2: int, mi
     k1 = choose(k1, 0, 2 if n > 1 else 0)
     k2 = choose(k2, 0, 2 if n > 2 else 0)
     round_trip_list(n, [k0, k1, k2], minor)
+
+
+# ----------------------------------------------------------------------------- locations that live in a grid
+HexGrid = repo("armi.reactor.grids.hexagonal:HexGrid")
+Composite = repo("armi.reactor.composites:Composite")
+
+
+@lemma(gen={"kind": [1, 3, 4], "a": (-5, 5), "b": (-5, 5), "d": (-5, 5), "e": (-5, 5), "i": (-9, 9), "j": (-9, 9), "pitch": (0.1, 30.0), "pp": (0.1, 3.0)})
+def pin_locations_in_a_block_grid_come_back_as_local_cells(kind: int, a: int, b: int, c: int, d: int, e: int, f: int,
+                                                           i: int, j: int, pitch: float, pp: float):
+    """a component located in the pin grid of a block (block in a core hex grid, real HexGrid.fromPitch): pack ->
+    stored -> unpack returns the LOCAL cell indices in the parent's grid, which is the key Database._compose looks up
+    in parent.spatialGrid (the look-up itself needs a dictionary with symbolic keys and is left to the bounded tier).
+    kind 1: one IndexLocation, 3/4: MultiIndexLocation with 1/2 pins.  Composite objects are made with new() (only
+    parent and spatialLocator are read)."""
+    assume(pitch > 0 and pp > 0)
+    kind = choose(kind, 1, 4)
+    assume(kind != 2)
+    core = new(Composite, parent=new(Composite, parent=None, spatialLocator=CoordinateLocation(0.0, 0.0, 0.0, None)))
+    core.spatialLocator = CoordinateLocation(0.0, 0.0, 0.0, None)
+    cg = HexGrid.fromPitch(pitch, numRings=1, armiObject=core)
+    blk = new(Composite, parent=core)
+    blk.spatialLocator = IndexLocation(i, j, 0, cg)
+    pg = HexGrid.fromPitch(pp, numRings=1, armiObject=blk)
+    if kind == 1:
+        loc = IndexLocation(a, b, c, pg)
+    else:
+        loc = MultiIndexLocation(pg)
+        loc.append(IndexLocation(a, b, c, pg))
+        if kind == 4:
+            loc.append(IndexLocation(d, e, f, pg))
+    types, data = layout._packLocations([blk.spatialLocator, loc])
+    back = layout._unpackLocations(types, stored(data))
+    assert len(back) == 2
+    assert same_value(1, back[0], (i, j, 0)), "the block's own cell in the core grid"
+    assert same_value(kind, back[1], expected(kind, a, b, c, 0.0, 0.0, 0.0, d, e, f)), "local pin cell(s), not shifted by the block's"
+
+
+@lemma(gen={"kind": [1, 3, 4], "a": (-5, 5), "b": (-5, 5), "d": (-5, 5), "e": (-5, 5), "pp": (0.1, 3.0)})
+def unpacked_pin_locations_look_up_the_same_cells_of_the_grid(kind: int, a: int, b: int, d: int, e: int, pp: float):
+    """what Database._compose does with the unpacked value: parent.spatialGrid[location] (real
+    StructuredGrid.__getitem__, its `_locations` dictionary with symbolic index triples as keys) is the very location
+    object the component had (kind 1) / a multi-location over the very same cells of the same grid (kinds 3, 4)."""
+    assume(pp > 0)
+    kind = choose(kind, 1, 4)
+    assume(kind != 2)
+    blk = new(Composite, parent=None, spatialLocator=CoordinateLocation(0.0, 0.0, 0.0, None))
+    pg = HexGrid.fromPitch(pp, numRings=1, armiObject=blk)
+    if kind == 1:
+        loc = pg[(a, b, 0)]
+    elif kind == 3:
+        loc = pg[[(a, b, 0)]]
+    else:
+        loc = pg[[(a, b, 0), (d, e, 0)]]
+    types, data = layout._packLocations([loc])
+    back = layout._unpackLocations(types, stored(data))
+    again = pg[back[0]]
+    if kind == 1:
+        assert same(again, loc), "the grid hands out the same cell object"
+    else:
+        assert type(again) is MultiIndexLocation and same(again.grid, pg)
+        assert len(again) == len(loc)
+        for m in range(len(loc)):
+            assert same(again[m], loc[m]), "same cell objects in the same order"
+
+
+# ----------------------------------------------------------------------------- ancestors from the pre-order layout
+Layout = repo("armi.bookkeeping.db.layout:Layout")
+
+
+def forests(n):
+    """all ordered forests with n nodes as (number of roots, pre-order list of child counts)"""
+    if n == 0:
+        return [(0, [])]
+    out = []
+    for size in range(1, n + 1):
+        for t in trees(size):
+            for r, rest in forests(n - size):
+                out.append((r + 1, t + rest))
+    return out
+
+
+def trees(n):
+    """all ordered trees with n nodes as pre-order lists of child counts (Catalan(n-1) of them)"""
+    return [[r] + seq for r, seq in forests(n - 1)]
+
+
+def walk(numChildren, idx, parentIdx, parents):
+    """naive recursive descent over the pre-order layout: records the parent index of every node of the subtree
+    starting at idx and returns the index after that subtree"""
+    parents[idx] = parentIdx
+    nxt = idx + 1
+    for _ in range(numChildren[idx]):
+        nxt = walk(numChildren, nxt, idx, parents)
+    return nxt
+
+
+def up(parents, idx, depth):
+    for _ in range(depth):
+        if idx is None:
+            return None
+        idx = parents[idx]
+    return idx
+
+
+NSHAPES = {1: 1, 2: 1, 3: 2, 4: 5, 5: 14, 6: 42}
+
+
+def ancestors_of_shape(n, shape, depth):
+    shapes = trees(n)
+    assert len(shapes) == NSHAPES[n], "the enumeration of shapes is complete (Catalan number)"
+    numChildren = shapes[shape]
+    sns = [sym_int("sn%d" % m) for m in range(n)]
+    for m in range(n):
+        for q in range(m):
+            assume(sns[m] != sns[q])  # serial numbers are unique
+    parents = [None] * n
+    end = walk(numChildren, 0, None, parents)
+    assert end == n
+    got = Layout.computeAncestors(sns, numChildren, depth)
+    assert len(got) == n, "one entry per object"
+    for m in range(n):
+        want = up(parents, m, depth)
+        if want is None:
+            assert got[m] is None, "no such ancestor: None"
+        else:
+            assert got[m] is not None and got[m] == sns[want], "serial number of the ancestor `depth` levels up"
+
+
+@lemma(gen={"n": [1, 2, 3, 4, 5, 6], "shape": (0, 41)})
+def parents_from_the_preorder_layout(n: int, shape: int):
+    """Layout.computeAncestors(depth=1) against a naive recursive walk: EVERY tree shape with 1..6 nodes (1+1+2+5+14+42
+    shapes, enumerated), serial numbers symbolic and pairwise different"""
+    n = choose(n, 1, 6)
+    shape = choose(shape, 0, NSHAPES[n] - 1)
+    ancestors_of_shape(n, shape, 1)
+
+
+@lemma(gen={"n": [1, 2, 3, 4, 5, 6], "shape": (0, 41)})
+def grandparents_from_the_preorder_layout(n: int, shape: int):
+    """the same for depth=2 (grandparent; None for the root and its children)"""
+    n = choose(n, 1, 6)
+    shape = choose(shape, 0, NSHAPES[n] - 1)
+    ancestors_of_shape(n, shape, 2)
+
+
+@lemma(gen={"n": [1, 2, 3, 4, 5, 6], "shape": (0, 41)})
+def great_grandparents_from_the_preorder_layout(n: int, shape: int):
+    """the same for depth=3"""
+    n = choose(n, 1, 6)
+    shape = choose(shape, 0, NSHAPES[n] - 1)
+    ancestors_of_shape(n, shape, 3)
